@@ -330,6 +330,43 @@ def sourceBashrcs : List BashrcItem → List BashrcLine
   | .transfer (_ + 1) :: _ => [.death]
   | .other :: _ => [.failed, .death]
 
+/-! ## the handler table of one `generic_handler` session (line level)
+
+`generic_handler(additional_commands)` builds its table afresh on every call: the fixed commands, then
+`handlers.update(additional_commands)`.  A processor object is pooled and serves many sessions with different additional
+commands (metadata regeneration: `request_inherit`, `key`; phases: the IPC helpers, `request_bashrcs`, …); a command is
+known in a session exactly when it is a fixed command or one of *this* session's additional commands. -/
+
+/-- commands every session understands, with what they do there: `phases` ends the session, `prob`/`failed`/
+`env_receiving_failed` raise UnhandledCommand, the notices and the sandbox summary are treated elsewhere in this file -/
+def wPhases : Line := "phases".toList
+def rejectWords : List Line := ["prob".toList, "env_receiving_failed".toList, "failed".toList]
+def otherBaseWords : List Line := ["request_sandbox_summary".toList, wSigint, wSigterm, wDying]
+def baseWords : List Line := wPhases :: rejectWords ++ otherBaseWords
+
+inductive HEnd
+  | finished            -- `phases …`: FinishedProcessing / ProcessorError, the session is over in an orderly way
+  | unhandled (line : Line)   -- UnhandledCommand(line)
+  | dry                 -- nothing left to read
+  | outside             -- a notice or a summary request: see the notice matrix / message-level model
+  deriving DecidableEq, Repr
+
+/-- the dispatch loop of one session: the additional commands called (in order, by name) and how the session ends -/
+def handlerSession (extra : List Line) : List Line → List Line × HEnd
+  | [] => ([], .dry)
+  | l :: rest =>
+    let w := firstWord l
+    if w ∈ extra then
+      let r := handlerSession extra rest
+      (w :: r.1, r.2)
+    else if w == wPhases then ([], .finished)
+    else if w ∈ otherBaseWords then ([], .outside)
+    else ([], .unhandled l)
+
+/-- one pooled processor serving sessions one after the other: each call builds its own table -/
+def serveSessions (sessions : List (List Line × List Line)) : List (List Line × HEnd) :=
+  sessions.map fun s => handlerSession s.1 s.2
+
 /-! ## Python's view of a session (used to validate recorded traces) -/
 
 inductive Obs | wrote (x : Cmd) | read (m : Msg)
